@@ -113,6 +113,23 @@ Definition sem_driver (v : string → bool) (x : bool) (d : driver) : bool :=
 Definition sat_module (m : vmodule) (v : string → bool) (x : bool) : Prop :=
   ∀ n d, (n, d) ∈ drivers m → v n = sem_driver v x d.
 
+(* ---- nets that a statement defines: assign targets, output terminals of primitives, nets on blackbox output pins ---- *)
+Definition find_def (bbs : list bbdef) (mn : string) : option bbdef := last (filter (λ d, bb_name d = mn) bbs).
+Definition inst_defs (bbs : list bbdef) (mn : string) (ic : string * conns) : list string :=
+  match prim_of_name mn with
+  | Some _ => match ic.2 with Positional (o :: _) => match as_id o with Some n => [n] | None => [] end | _ => [] end
+  | None =>
+      match find_def bbs mn, ic.2 with
+      | Some d, Named ps =>
+          ps ≫= (λ pc : string * option cond,
+                   if bool_decide (pc.1 ∈ bb_out d) then match pc.2 with Some e => match as_id e with Some w => [w] | None => [] end | None => [] end
+                   else [])
+      | _, _ => [] end
+  end.
+Definition item_defs (bbs : list bbdef) (it : item) : list string :=
+  match it with IAssign l => l.*1 | IInst mn insts => insts ≫= inst_defs bbs mn | _ => [] end.
+Definition module_defs (bbs : list bbdef) (m : vmodule) : list string := m_items m ≫= item_defs bbs.
+
 (* ---- declared interface ---- *)
 Definition decl_inputs (m : vmodule) : list string := m_items m ≫= (λ it, match it with IInput l => l | _ => [] end).
 Definition decl_outputs (m : vmodule) : list string := m_items m ≫= (λ it, match it with IOutput l => l | _ => [] end).
